@@ -2,6 +2,7 @@ package props
 
 import (
 	"bytes"
+	"encoding/hex"
 	"fmt"
 	"math/big"
 	"os"
@@ -11,6 +12,7 @@ import (
 
 	"github.com/markkurossi/mpc/circuit"
 	mpccircuit "github.com/markkurossi/mpc/circuit"
+	"github.com/markkurossi/mpc/compiler"
 	"github.com/markkurossi/mpc/compiler/utils"
 
 	"verifharness/internal/mpclgen"
@@ -414,6 +416,16 @@ func runC05(cs *vrt.Case) {
 	runC05One(cs)
 }
 
+// programs whose result depends on package-level variables of library packages
+var c05LibPrograms = []struct {
+	name, src string
+	n         int // bytes per party
+}{
+	{"hex", "package main\n\nimport (\n\t\"encoding/hex\"\n)\n\nfunc main(a, b [4]byte) (string, uint8) {\n\treturn hex.EncodeToString(a), b[0] ^ b[3]\n}\n", 4},
+	{"aes", "package main\n\nimport (\n\t\"crypto/aes\"\n)\n\nfunc main(k [16]byte, d [16]byte) [16]byte {\n\treturn aes.EncryptBlock(k, d)\n}\n", 16},
+	{"hex+aes", "package main\n\nimport (\n\t\"crypto/aes\"\n\t\"encoding/hex\"\n)\n\nfunc main(k [16]byte, d [16]byte) (string, [16]byte) {\n\treturn hex.EncodeToString(d), aes.EncryptBlock(k, d)\n}\n", 16},
+}
+
 func runC05One(cs *vrt.Case) {
 	r := cs.Rng
 	var src string
@@ -422,6 +434,8 @@ func runC05One(cs *vrt.Case) {
 	var prog *mpclgen.Program
 	var vec []mpclgen.Val
 	srcFile := "" // set for programs that live in a directory (native circuits next to them)
+	var reuseParams *utils.Params
+	var reuseCC *compiler.Compiler
 	npairs := 2
 	if k := cs.Idx % 10; k < len(c05Fixtures) && (k < 2 || cs.Idx%30 == k) {
 		f := c05Fixtures[k]
@@ -440,6 +454,22 @@ func runC05One(cs *vrt.Case) {
 		src, gIn, eIn = c05ManyValues(r)
 		what = "many-values family"
 		npairs = 1
+	} else if k == 2 && cs.Idx%20 == 2 {
+		// programs that read package-level variables of library packages,
+		// streamed by a Compiler instance with a history: the same instance
+		// compiled and/or streamed (this or another program importing the same
+		// packages) before; the whole circuit comes from a fresh instance
+		lp := c05LibPrograms[(cs.Idx/20)%len(c05LibPrograms)]
+		src, what = lp.src, "library family on a reused Compiler instance: "+lp.name
+		gIn, eIn = []string{"0x" + hex.EncodeToString(r.Bytes(lp.n))}, []string{"0x" + hex.EncodeToString(r.Bytes(lp.n))}
+		npairs = 2
+		reuseParams = utils.NewParams()
+		reuseCC = compiler.New(reuseParams)
+		if r.Bool() {
+			other := c05LibPrograms[r.Intn(len(c05LibPrograms))]
+			vrt.Guard(func() { reuseCC.Compile(other.src, nil) })
+			cs.Count("compilations_in_the_history_of_a_streaming_instance", 1)
+		}
 	} else if k == 3 && cs.Idx%30 != 3 || k == 2 && cs.Idx%20 == 12 {
 		dir, file, s, g, e, err := c05NativeProgram(r)
 		if dir != "" {
@@ -507,7 +537,10 @@ func runC05One(cs *vrt.Case) {
 		if strings.Contains(what, "across-65536") {
 			otk = 1 // 65600 base OTs with CO take minutes
 		}
-		o := runStream(r, src, nil, gIn, eIn, yaoOpts{ot: otk, kind: 2, stallWin: 30 * time.Second, srcName: srcFile})
+		o := runStream(r, src, reuseParams, gIn, eIn, yaoOpts{ot: otk, kind: 2, stallWin: 30 * time.Second, srcName: srcFile, cc: reuseCC})
+		if reuseCC != nil {
+			cs.Count("streams_by_a_compiler_instance_with_history", 1)
+		}
 		cs.Evals++
 		if pi := firstPanic(o.g, o.e); pi != nil {
 			if pi.InMPC {
